@@ -1,0 +1,60 @@
+//go:build verif
+
+// Contracts for the verification engine in /verif (comment-only file; it is
+// compiled only with the build tag "verif" and contains no code).
+
+package erpc
+
+// ---- C20: recycled handler contexts ---------------------------------------
+
+// every per-use field of a context is back at its zero value; "start" is
+// exempt (overwritten before any read on both acquire paths); input/output are
+// the context's own two messages, reset by message.Reset (see socket contracts)
+//@ spec fn cleanCtx(c *handlerCtx) bool = c.sess == nil && c.handler == nil && c.callCmd == nil && c.swap == nil && c.cost == 0 && c.pluginContainer == nil && c.stat == nil && c.context == nil && c.arg.flag == 0 && c.arg.ptr == nil && c.arg.typ_ == nil && c.input != nil && c.output != nil
+//@ covers cleanCtx erpc.handlerCtx @C20 except start
+
+// input/output are the context's own two distinct messages, assigned once
+//@ writes (*handlerCtx).input only-in newReadHandleCtx @C20
+//@ writes (*handlerCtx).output only-in newReadHandleCtx @C20
+//@ spec fn ctxShape(c *handlerCtx) bool = istype(c.input, type(*socket.message)) && istype(c.output, type(*socket.message)) && dyn(c.input) != dyn(c.output) && as(c.input, type(*socket.message)).meta != as(c.output, type(*socket.message)).meta && as(c.input, type(*socket.message)).xferPipe != as(c.output, type(*socket.message)).xferPipe && as(c.input, type(*socket.message)).meta != nil && as(c.input, type(*socket.message)).xferPipe != nil && as(c.output, type(*socket.message)).meta != nil && as(c.output, type(*socket.message)).xferPipe != nil
+
+// emptyValue = reflect.Value{} is never assigned: it is the zero Value
+//@ zeroglobal emptyValue @C20
+
+//@ func (*handlerCtx).clean
+//@   property C20
+//@   requires ctxShape(c)
+//@   let mi = as(c.input, type(*socket.message))
+//@   let mo = as(c.output, type(*socket.message))
+//@   modifies c.sess, c.handler, c.arg, c.callCmd, c.swap, c.cost, c.pluginContainer, c.stat, c.context
+//@   modifies mi.serviceMethod, mi.status, mi.body, mi.newBodyFunc, mi.ctx, mi.size, mi.seq, mi.mtype, mi.bodyCodec, fields(mi.meta), fields(mi.xferPipe)
+//@   modifies mo.serviceMethod, mo.status, mo.body, mo.newBodyFunc, mo.ctx, mo.size, mo.seq, mo.mtype, mo.bodyCodec, fields(mo.meta), fields(mo.xferPipe)
+//@   modifies allelems(type(utils.argsKV)), allelems(type(byte)), allelems(type(xfer.XferFilter))
+//@   ensures[all-fields] cleanCtx(c)
+//@   ensures[output-fresh] freshMsg(as(c.output, type(*socket.message)))
+
+//@ func newReadHandleCtx
+//@   property C20
+//@   ensures[fresh-ctx] fresh(result) && cleanCtx(result) && result.start == 0
+//@   ensures[shape] ctxShape(result)
+
+// the session's socket is always the framework's own socket type (assigned by
+// newSession from socket.NewSocket/GetSocket), so interface calls on it are
+// resolved to *socket.socket
+//@ sealed socket.Socket => *socket.socket
+
+//@ func (*handlerCtx).reInit
+//@   property C20
+//@   requires s != nil && s.socket != nil
+//@   modifies c.sess, c.swap
+//@   ensures[session-set] c.sess == s
+//@   ensures[swap-new] c.swap != nil
+
+//@ func (*peer).getContext
+//@   property C20
+//@   requires s != nil && s.socket != nil
+//@   ensures[recycled-like-new] result.sess == s && result.handler == nil && result.callCmd == nil && result.cost == 0 && result.pluginContainer == nil && result.stat == nil && result.context == nil && freshMsg(as(result.output, type(*socket.message)))
+
+//@ func init$ctxPool.New
+//@   property C20
+//@   ensures[pool-new] istype(result, type(*handlerCtx)) && ctxShape(as(result, type(*handlerCtx)))
